@@ -531,7 +531,7 @@ impl Engine {
             failure_persistence: None,
             rng_algorithm: RngAlgorithm::ChaCha,
             rng_seed: RngSeed::Fixed(x),
-            max_shrink_iters: 4000,
+            max_shrink_iters: 1500,
             max_shrink_time: 60_000,
             max_global_rejects: 1_000_000,
             verbose: 0,
